@@ -1,5 +1,5 @@
 (* C04 — subsystem-change notifications are delivered exactly once and in order.  Statements only. *)
-From MPD Require Import Bytes Tables ParserModel BuilderModel ConnModel ConnProofs LoopModel LoopProofs LoopSpec LoopSpecProofs.
+From MPD Require Import Bytes Tables ParserModel BuilderModel ConnModel ConnProofs LoopModel LoopProofs LoopSpec LoopSpecProofs ServerModel DriverLoop LoopRefine LoopRefineProofs.
 Open Scope N_scope.
 
 (* for EVERY schedule: the names delivered as events, followed by the names in replies still on
@@ -55,9 +55,20 @@ Example c04_two_in_one_reply :
   a_delivered s = [b "player"; b "mixer"] /\ a_reported s = [b "player"; b "mixer"].
 Proof. vm_compute. auto. Qed.
 
+(* ---- the EXECUTABLE system (see Props/C05.v, c05_exec_refines) ----
+   For every label sequence of the fault-free fragment, the events the application is handed, in
+   order, are a prefix of the names the simulated server wrote in changed: lines (the rest is still
+   in flight): none lost, none duplicated, none invented, order kept — through the idle replies,
+   the cancelled idles and the noidle race alike. *)
+Theorem c04_exec_events : forall cf labs gls, in_fragment cf labs gls ->
+  exists ne rest, flat_map g_ev (snd (xrun (xinit cf) labs)) = map ev_text ne /\
+                  ne ++ rest = s_reported (x_srv (fst (xrun (xinit cf) labs))).
+Proof. exact exec_events. Qed.
+
 Print Assumptions c04_exactly_once.
 Print Assumptions c04_quiescent.
 Print Assumptions c04_every_changed_field.
 Print Assumptions c04_no_invention.
 Print Assumptions c04_partial_reply_is_kept.
 Print Assumptions c04_all_delivered_eventually.
+Print Assumptions c04_exec_events.
